@@ -367,6 +367,153 @@ theorem breadth_final (A : AMat Rat n) (hdiag : ∀ i, A.get i i = 0) (s : Fin n
   simp only [bInit]
   rw [vec_ofFn_get, if_pos rfl]
 
+/-! ## the predecessor vector `branch` -/
+
+/-- `branch[source] = -1`; every discovered node `v ≠ source` records a node `u` with a connection `u → v` that was
+discovered one level earlier -/
+def BrInv (A : AMat Rat n) (s : Fin n) (st : BSt n) : Prop :=
+  st.branch[s] = -1 ∧ ∀ v, v ≠ s → st.color[v] ≠ 0 →
+    ∃ u : Fin n, st.branch[v] = (u.val : ℤ) ∧ A.get u v ≠ 0 ∧ (absB s st).δ v = (absB s st).δ u + 1
+
+theorem quirk_branch (u v : Fin n) (st : BSt n) : (quirk u st v).branch = st.branch ∧ (quirk u st v).color = st.color := by
+  unfold quirk; split_ifs <;> exact ⟨rfl, rfl⟩
+
+theorem visit_br (A : AMat Rat n) (s u v : Fin n) (st : BSt n) (rest : List (Fin n))
+    (h : BInv A s (absB s st) (u :: rest)) (hr : R2 s st) (hvu : v ≠ u) (huv : A.get u v ≠ 0) (hb : BrInv A s st) :
+    BrInv A s (visit u st v).1 := by
+  obtain ⟨spW, spN⟩ := visit_spec A s u v st rest h hr hvu
+  obtain ⟨qb, qc⟩ := quirk_branch u v st
+  by_cases hc : st.color[v] = 0
+  · obtain ⟨_, habs, _⟩ := spW hc
+    have hvs : v ≠ s := by intro e; rw [e] at hc; exact h.s_col hc
+    have hq0 : (quirk u st v).color[v] = 0 := by rw [qc]; exact hc
+    have hv1 : (visit u st v).1 = paint u (quirk u st v) v := by unfold visit; rw [if_pos hq0]
+    have hbr : ∀ w, (visit u st v).1.branch[w] = if w = v then (u.val : ℤ) else st.branch[w] := by
+      intro w; rw [hv1]; simp only [paint]; rw [vset_get, qb]
+    have hcol : ∀ w, (visit u st v).1.color[w] = if w = v then 1 else st.color[w] := by
+      intro w; rw [hv1]; simp only [paint]; rw [vset_get, qc]
+    refine ⟨by rw [hbr, if_neg (Ne.symm hvs)]; exact hb.1, ?_⟩
+    intro w hws hwc
+    rw [habs]
+    by_cases hwv : w = v
+    · subst hwv
+      refine ⟨u, by rw [hbr, if_pos rfl], huv, ?_⟩
+      simp only [discover, if_true, if_neg (Ne.symm hvu)]
+    · rw [hcol, if_neg hwv] at hwc
+      obtain ⟨uw, e1, e2, e3⟩ := hb.2 w hws hwc
+      have hwfin : (absB s st).δ w < ⊤ := h.nonwhite w hwc
+      have huw : uw ≠ v := by
+        intro e
+        have : (absB s st).δ uw = ⊤ := h.white uw (by rw [e]; exact hc)
+        rw [e3, this] at hwfin
+        simp at hwfin
+      refine ⟨uw, by rw [hbr, if_neg hwv]; exact e1, e2, ?_⟩
+      simp only [discover, if_neg hwv, if_neg huw]
+      exact e3
+  · obtain ⟨_, habs, _⟩ := spN hc
+    have hq0 : ¬ (quirk u st v).color[v] = 0 := by rw [qc]; exact hc
+    have hv1 : (visit u st v).1 = quirk u st v := by unfold visit; rw [if_neg hq0]
+    refine ⟨by rw [hv1, qb]; exact hb.1, ?_⟩
+    intro w hws hwc
+    rw [hv1, qc] at hwc
+    obtain ⟨uw, e1, e2, e3⟩ := hb.2 w hws hwc
+    exact ⟨uw, by rw [hv1, qb]; exact e1, e2, by rw [habs]; exact e3⟩
+
+theorem visitAll_br (A : AMat Rat n) (s u : Fin n) (rest : List (Fin n)) :
+    ∀ (ns : List (Fin n)) (acc : BSt n × List (Fin n)),
+      (∀ v ∈ ns, v ≠ u ∧ A.get u v ≠ 0) →
+      BInv A s (absB s acc.1) (u :: (rest ++ acc.2)) → R2 s acc.1 → BrInv A s acc.1 →
+      BrInv A s (visitAll u ns acc).1 := by
+  intro ns
+  induction ns with
+  | nil => intro acc _ _ _ hb; simpa [visitAll] using hb
+  | cons v ns ih =>
+    intro acc hns h hr hb
+    obtain ⟨hvu, huv⟩ := hns v List.mem_cons_self
+    have hns' : ∀ x ∈ ns, x ≠ u ∧ A.get u x ≠ 0 := fun x hx => hns x (List.mem_cons_of_mem _ hx)
+    obtain ⟨spW, spN⟩ := visit_spec A s u v acc.1 (rest ++ acc.2) h hr hvu
+    have hb' := visit_br A s u v acc.1 (rest ++ acc.2) h hr hvu huv hb
+    have hunfold : visitAll u (v :: ns) acc =
+        visitAll u ns ((visit u acc.1 v).1, if (visit u acc.1 v).2 then acc.2 ++ [v] else acc.2) := by
+      simp only [visitAll, List.foldl_cons]
+    rw [hunfold]
+    by_cases hc : (absB s acc.1).col v = 0
+    · obtain ⟨e1, e2, e3⟩ := spW hc
+      rw [e1]
+      simp only [if_true]
+      have hinv := binv_discover A s (absB s acc.1) u v (rest ++ acc.2) h hc huv
+      rw [← e2] at hinv
+      have hq : u :: (rest ++ acc.2 ++ [v]) = u :: (rest ++ (acc.2 ++ [v])) := by simp
+      rw [hq] at hinv
+      exact ih ((visit u acc.1 v).1, acc.2 ++ [v]) hns' hinv e3 hb'
+    · obtain ⟨e1, e2, e3⟩ := spN hc
+      rw [e1]
+      simp only [Bool.false_eq_true, if_false]
+      have hinv : BInv A s (absB s (visit u acc.1 v).1) (u :: (rest ++ acc.2)) := by rw [e2]; exact h
+      exact ih ((visit u acc.1 v).1, acc.2) hns' hinv e3 hb'
+
+theorem bfs_step_br (A : AMat Rat n) (hdiag : ∀ i, A.get i i = 0) (s u : Fin n) (st : BSt n) (rest : List (Fin n))
+    (h : BInv A s (absB s st) (u :: rest)) (hr : R2 s st) (hb : BrInv A s st) :
+    BrInv A s (blackenSt (visitAll u ((List.finRange n).filter fun v => A.get u v ≠ 0) (st, [])).1 u) := by
+  set ns := (List.finRange n).filter fun v => A.get u v ≠ 0 with hns
+  have hnsmem : ∀ v ∈ ns, v ≠ u ∧ A.get u v ≠ 0 := by
+    intro v hv
+    have : A.get u v ≠ 0 := by simpa [hns] using (List.mem_filter.mp hv).2
+    exact ⟨fun e => this (e ▸ hdiag u), this⟩
+  have h0 : BInv A s (absB s (st, ([] : List (Fin n))).1) (u :: (rest ++ (st, ([] : List (Fin n))).2)) := by
+    simpa using h
+  have hb1 := visitAll_br A s u rest ns (st, []) hnsmem h0 hr hb
+  set st' := (visitAll u ns (st, [])).1
+  refine ⟨hb1.1, ?_⟩
+  intro w hws hwc
+  have hwc' : st'.color[w] ≠ 0 := by
+    simp only [blackenSt] at hwc
+    rw [vset_get] at hwc
+    by_cases hwu : w = u
+    · -- u was gray before the pass and colours never go back to white
+      obtain ⟨i1, _, _⟩ := visitAll_spec A s u rest ns (st, []) [] hnsmem h0 hr (by intro v hv; exact absurd hv List.not_mem_nil)
+      have := i1.q_gray u List.mem_cons_self
+      rw [hwu]
+      change st'.color[u] = 1 at this
+      omega
+    · rw [if_neg hwu] at hwc; exact hwc
+  obtain ⟨uw, e1, e2, e3⟩ := hb1.2 w hws hwc'
+  exact ⟨uw, e1, e2, e3⟩
+
+theorem bfsLoop_br (A : AMat Rat n) (hdiag : ∀ i, A.get i i = 0) (s : Fin n) :
+    ∀ (fuel : ℕ) (st : BSt n) (Q : List (Fin n)) (r : BSt n), BInv A s (absB s st) Q → R2 s st → BrInv A s st →
+      bfsLoop A fuel st Q = some r → BrInv A s r := by
+  intro fuel
+  induction fuel with
+  | zero =>
+    intro st Q r _ _ hb hres
+    cases Q with
+    | nil => simp only [bfsLoop, Option.some.injEq] at hres; rw [← hres]; exact hb
+    | cons u Q => simp [bfsLoop] at hres
+  | succ fuel ih =>
+    intro st Q r h hr hb hres
+    cases Q with
+    | nil => simp only [bfsLoop, Option.some.injEq] at hres; rw [← hres]; exact hb
+    | cons u rest =>
+      rw [bfsLoop_step_eq] at hres
+      obtain ⟨j1, j2, _⟩ := bfs_step A hdiag s u st rest h hr
+      exact ih _ _ r j1 j2 (bfs_step_br A hdiag s u st rest h hr hb) hres
+
+/-- `breadth(CIJ, source)` on a matrix with empty diagonal: `branch[source] = -1` and, for every reached `v ≠ source`,
+`branch[v]` is a node with a connection to `v` whose recorded distance is one less (reading `distance[source]` as 0) -/
+theorem breadth_branch (A : AMat Rat n) (hdiag : ∀ i, A.get i i = 0) (s : Fin n) (r : BSt n) (h : breadth A s = some r) :
+    BrInv A s r := by
+  unfold breadth at h
+  refine bfsLoop_br A hdiag s _ _ _ r (binv_init A s) ?_ ?_ h
+  · intro _
+    simp only [bInit]
+    rw [vec_ofFn_get, if_pos rfl]
+  · refine ⟨by simp only [bInit]; rw [vec_ofFn_get, if_pos rfl], ?_⟩
+    intro v hvs hc
+    simp only [bInit] at hc
+    rw [vec_ofFn_get, if_neg hvs] at hc
+    exact absurd rfl hc
+
 /-- the model of `breadth` always returns on a matrix with empty diagonal -/
 theorem breadth_isSome (A : AMat Rat n) (hdiag : ∀ i, A.get i i = 0) (s : Fin n) : (breadth A s).isSome = true := by
   unfold breadth
